@@ -4,8 +4,10 @@ import (
 	"encoding/json"
 	"flag"
 	"fmt"
+	"github.com/ChrisTrenkamp/xsel"
 	"os"
 	"strconv"
+	"strings"
 )
 
 var families = map[string]func(rn *Runner){}
@@ -100,6 +102,17 @@ func doReplay(m *Model, file string) int {
 }
 
 var replayers = map[string]func(rn *Runner, rp *Replay) (impl, model string, agree bool){
+	// the value of /*/@x after ReadXml, against the value XML 1.0 section 3.3.3 prescribes (rp.Model)
+	"xmlattr": func(rn *Runner, rp *Replay) (string, string, bool) {
+		c, err := xsel.ReadXml(strings.NewReader(rp.Input))
+		if err != nil {
+			return "E", rp.Model, false
+		}
+		g := xsel.MustBuildExpr("string(/*/@x)")
+		r, _ := xsel.Exec(c, &g)
+		got := fmt.Sprintf("%q", r.String())
+		return got, rp.Model, got == rp.Model
+	},
 	"callerresult": func(rn *Runner, rp *Replay) (string, string, bool) {
 		d := rn.NewDoc(rp.Events)
 		m := callerResultCases(d.Root, rp.Text)
